@@ -142,6 +142,7 @@ def _all_values(base, out):
 
 def r19c(chk, rid='R19.c'):
     chk.rule(rid, 'one enumeration for reading and replacing, decided by evaluation: getUrls, replaceUrls and its CSSStyleDeclaration overload (with _style_declarations, _uri_values and any helper they call) are evaluated on their syntax trees over a model sheet - @import rules, overridden and effective declarations, url() and other values, an @media rule with nested rules, @page rules that have own declarations and margin boxes: every @import target and every url() value is listed exactly once, imports first; the replacer is called exactly once with each of them and its result is stored in the attribute it was read from; nothing else is written; ignoreImportRules leaves the @import targets alone')
+    chk.assume('R19.c: sheets, rules, declarations and values are model objects; getProperties(all=False) of the model returns only the last declaration of a name, so all=True is observable')
     import itertools
 
     from sa.absint import Evaluator, Raised
@@ -197,6 +198,7 @@ def r19c(chk, rid='R19.c'):
 
 def r19d(chk, rid='R19.d'):
     chk.rule(rid, 'path re-basing, decided by evaluation: Replacer.__init__, extract_base and __call__ are evaluated on their syntax trees (posixpath, urllib.parse and pathname2url are used as they are) for @import hrefs in child, sibling and parent directories, root-relative, scheme-relative and absolute, and for URLs that are relative (plain, dotted, with query and fragment, with quoted and unquoted special characters), root-relative, scheme-relative, absolute or data: URLs: resolved from the combined sheet, the rewritten URL denotes the same absolute URL as the original did from the imported sheet; anything with a scheme, a host or a root-relative path is kept as it is')
+    chk.assume('R19.d: posixpath, urllib.parse and pathname2url are used as they are; equality of URLs is compared after unquoting')
     import urllib.parse
 
     from sa.absint import Evaluator, Raised, Record
@@ -261,6 +263,7 @@ def _eval_flatten(chk, rid, m):
     a model import tree (sheets, rules and the sheet constructors are model objects; replaceUrls is
     recorded, its own behaviour is R19.c; MediaCombineDisallowed.check applies _combinable, which
     is evaluated from the source, to every rule)."""
+    chk.assume("R19.e: replaceUrls is recorded (R19.c decides it); MediaCombineDisallowed.check is modelled as 'raise if _combinable (evaluated from the source) rejects a rule'; target.add never refuses in the model")
     from sa.absint import Evaluator, Raised, Record, _Raise
 
     class Sheet(Record):
